@@ -147,7 +147,7 @@ class ArraySys(System):
         ops, disabled = [], 0
         grow = [(('append', 'A'), 1), (('append', 'B'), 2), (('append', 'C'), 1),
                 (('iterappend', 'list2'), 2), (('iterappend', 'gen1'), 1),
-                (('iterappend', 'ZA'), 1), (('iterappend', 'Abad'), 1), (('iterappend', 'ctxAG'), 2)]
+                (('iterappend', 'ZA'), 1), (('iterappend', 'Abad'), 1), (('iterappend', 'ctxAG'), 2), (('iterappend', 'ctxAT'), 2)]
         if self.trail:
             grow.append((('append', 'F'), 2))
         if not self.trail:
@@ -266,6 +266,9 @@ class ArraySys(System):
                 elif spec == 'ctxAG':          # two appends inside one open_array() context
                     cs = [self.chunk('A'), self.chunk('G')]
                     it = None
+                elif spec == 'ctxAT':          # an append, then a truncation by one row, inside one open_array() context
+                    cs = [self.chunk('A'), self.chunk('G')]
+                    it = None
                 refs = [c[1] for c in cs]
                 call = lambda: a.iterappend(it)
                 if spec == 'ctxAG':
@@ -273,6 +276,13 @@ class ArraySys(System):
                         with a.open_array():
                             a.append(cs[0][0])
                             a.append(cs[1][0])
+                if spec == 'ctxAT':
+                    def call():
+                        with a.open_array():
+                            a.append(cs[0][0])
+                            a.append(cs[1][0])
+                            darr.truncate_array(a, len(a) - 1)
+                    refs = [cs[0][1]]          # net effect: one row appended
             if kind == 'append' and op[1] == 'S0' and m.mode != 'r':
                 expect = 'either'
                 newarr = np.concatenate([m.arr] + refs).astype(self.dtype)
